@@ -28,15 +28,17 @@ TLC_JOBS = {
               ("ConstExprMC", "ConstExpr_edge", 2, None, None),
               ("ConstExprMC", "ConstExpr_typed", 2, None, None),
               ("NumLexMC", "NumLex_quick", 2, None, None),
-              ("ConstExprEnvMC", "ConstExprEnv_quick", 6, None, None)],
+              ("ConstExprEnvMC", "ConstExprEnv_quick", 6, None, None),
+              ("ConstExprEnvMC", "ConstExprEnv_typed", 4, None, None)],
     "thorough": [("ConstExprMC", "ConstExpr_thorough", 8, None, None),
                  ("ConstExprMC", "ConstExpr_edge", 2, None, None),
                  ("ConstExprMC", "ConstExpr_typed_thorough", 4, None, None),
                  ("ConstExprMC", "ConstExpr_sim", 4, 8000, 9),
                  ("NumLexMC", "NumLex_thorough", 4, None, None),
-                 ("ConstExprEnvMC", "ConstExprEnv_thorough", 8, None, None)],
+                 ("ConstExprEnvMC", "ConstExprEnv_thorough", 8, None, None),
+                 ("ConstExprEnvMC", "ConstExprEnv_typed_thorough", 4, None, None)],
 }
-ENV_REPLAY_LIMIT = {"quick": 12000, "thorough": 250000}
+ENV_REPLAY_LIMIT = {"quick": 16000, "thorough": 250000}
 BATCH = 400
 LEAVES = [0, 1, -1, 2, 3, 7, 8, 31, 255, 256, 1073741824, 2147483647, -2147483647]
 DUMPER = os.path.join(VERIF, "harness", "c07_dump.py")
@@ -186,6 +188,8 @@ def lit_case(cid, rec):
     return c
 
 
+TTYPE_TEXT = {"bool": "bool", "char": "char", "schar": "signed char", "uchar": "unsigned char", "short": "short",
+              "ushort": "unsigned short", "int": "int"}
 OPEN_TEXT = {"open": "enum %s", "openC": "enum class %s", "openU": "enum %s : unsigned char",
              "openCS": "enum class %s : short"}
 
@@ -268,6 +272,9 @@ def env_case(cid, rec):
         elif k == "enumI":
             cur[1].append(name(i))
             c["items"].append(item("E", name(i), dcl["v"], enum=cur[0], mu=mu))
+        elif k == "tconst":
+            _, ty, v, frac = dcl["e"]
+            c["lines"].append("const %s %s = %s;" % (TTYPE_TEXT[ty], name(i), ("%d.5" % v) if frac else str(v)))
         elif k == "const":
             c["lines"].append("const int %s = %s;" % (name(i), expr(dcl["e"])))
         elif k == "constexpr":
